@@ -20,6 +20,59 @@ theorem noSp_member (o p : Node) (sp : Span) : noSp (.member o p sp) := by simp 
 theorem winU_win {lo hi k0 k1 : Nat} {Δ : Env} (h : WinU lo hi k0 k1 Δ) (h1 : lo ≤ k0) (h2 : hi ≤ k1) : Win lo k1 Δ := by
   intro p hp; have := h p hp; omega
 
+theorem noBlk_ddCallee (m : String) (sp : Span) : noBlk (ddCallee m sp) = true := by
+  unfold ddCallee
+  rw [noBlk_eq]
+  simp only [isBlockNode, kids, noBlkL_cons, noBlkL_nil, noBlk_ident, noBlk_pname]
+  rfl
+
+theorem ddCall_BRg_inv {first c'' : Node} {args : List Node} {m : String} {sp : Span}
+    (h : BRg (ddCall first args m sp) c'') (hnb : noBlkL args = true) :
+    ∃ first'', c'' = ddCall first'' args m sp ∧ BRg first first'' := by
+  unfold ddCall at h
+  obtain ⟨c', as', rfl, hc, has⟩ := h.call_inv
+  obtain ⟨a0, rest, rfl, ha0, hrest⟩ := BRgL.cons_inv has
+  obtain ⟨f'', rfl, hf⟩ := ha0.arg_inv
+  rw [BRg_noBlk (noBlk_ddCallee m sp) hc, BRgL_noBlk hnb hrest]
+  exact ⟨f'', rfl, hf⟩
+
+/-- a replacement inside a hook call with its hoisted operands touches only the first argument and the
+    assigned operands -/
+theorem ddParen_BRg_inv {first e'' : Node} {args asg : List Node} {m : String} {sp : Span}
+    (h : BRg (ddParen first args asg m sp) e'') (hnb : noBlkL args = true) :
+    ∃ first'' asg'', e'' = ddParen first'' args asg'' m sp ∧ BRg first first'' ∧ BRgL asg asg'' := by
+  unfold ddParen at h
+  simp only at h
+  by_cases he : asg.isEmpty = true
+  · simp only [he, if_true] at h
+    have : asg = [] := by simpa using he
+    subst this
+    obtain ⟨f'', rfl, hf⟩ := ddCall_BRg_inv h hnb
+    exact ⟨f'', [], by simp [ddParen], hf, BRgL.nil⟩
+  · simp only [he, Bool.false_eq_true, if_false] at h
+    obtain ⟨i'', rfl, hi⟩ := h.paren_inv
+    obtain ⟨ys, rfl, hys⟩ := hi.seq_inv
+    obtain ⟨asg'', k2, rfl, h1, h2⟩ := BRgL.append_inv hys
+    obtain ⟨c'', rfl, hc⟩ := BRgL.single_inv h2
+    obtain ⟨f'', rfl, hf⟩ := ddCall_BRg_inv hc hnb
+    refine ⟨f'', asg'', ?_, hf, h1⟩
+    have hne : asg''.isEmpty = false := by
+      have hl := h1.length
+      cases asg with
+      | nil => simp at he
+      | cons a as => cases asg'' <;> simp_all
+    simp [ddParen, hne]
+
+theorem AllTA.BRg {asg asg'' : List Node} (h : AllTA asg) (hb : BRgL asg asg'') : AllTA asg'' := by
+  induction asg generalizing asg'' with
+  | nil => rw [BRgL.nil_inv hb]; exact AllTA.nil
+  | cons a as ih =>
+    obtain ⟨b, bs, rfl, hab, hbs⟩ := BRgL.cons_inv hb
+    intro x hx
+    rcases List.mem_cons.mp hx with rfl | hx
+    · rw [hab.isTempAssign]; exact h a (by simp)
+    · exact ih (fun y hy => h y (by simp [hy])) hbs x hx
+
 /-- `to_dd_binary_expr`: the replacement erases to the operation on the erased operands -/
 theorem toDdBinary_Er (cfg : Config) (cx : Cx) (lo hi : Nat) (op : String) (l' r' l r : Node) (sp : Span) (s : St)
     (hw : HypW cx hi s) (hlo : lo ≤ s.counter) (hl : Er cx lo hi l' l) (hr : Er cx lo hi r' r) :
@@ -30,14 +83,14 @@ theorem toDdBinary_Er (cfg : Config) (cx : Cx) (lo hi : Nat) (op : String) (l' r
   have h1 := replaceExprNoExpand_Er cx lo hi l' l (getIdentMode r') [] [] sp .expr s hw hl
   generalize replaceExprNoExpand l' (getIdentMode r') [] [] sp .expr s = R1 at h1 ⊢
   obtain ⟨⟨l1, asg1, args1⟩, s1⟩ := R1
-  have c1 : s.counter ≤ s1.counter := by obtain ⟨_, _, _, _, _, _, c, _⟩ := h1; exact c
+  have c1 : s.counter ≤ s1.counter := by obtain ⟨_, _, _, _, _, _, _, c, _⟩ := h1; exact c
   try simp only
   have h2 := replaceExprNoExpand_Er cx lo hi r' r (getIdentMode l1) asg1 args1 sp .expr s1 (hw.mono c1) hr
   generalize replaceExprNoExpand r' (getIdentMode l1) asg1 args1 sp .expr s1 = R2 at h2 ⊢
   obtain ⟨⟨r1, asg2, args2⟩, s2⟩ := R2
-  have c2 : s1.counter ≤ s2.counter := by obtain ⟨_, _, _, _, _, _, c, _⟩ := h2; exact c
+  have c2 : s1.counter ≤ s2.counter := by obtain ⟨_, _, _, _, _, _, _, c, _⟩ := h2; exact c
   have hL := opErL_cons hw h1 (opErL_cons (hw.mono c1) h2 (opErL_nil cx lo hi asg2 args2 s2))
-  obtain ⟨new, more, ea, eg, ta, inn, c, A, B⟩ := hL
+  obtain ⟨new, more, ea, eg, ta, inn, nb, c, A, B⟩ := hL
   dsimp only at ea eg c A B
   simp only [List.nil_append] at ea eg
   subst ea eg
@@ -48,13 +101,15 @@ theorem toDdBinary_Er (cfg : Config) (cx : Cx) (lo hi : Nat) (op : String) (l' r
     intro e1 he
     simp only [Option.some.injEq] at he
     subst he
-    intro σ hσ
-    obtain ⟨Δ, eΔ, wΔ⟩ := A σ hσ
-    obtain ⟨Xs, Δ3, eX, sX, wX⟩ := B σ [] hσ (Avoid.nil _ _) (AvoidP.nil _)
+    intro e'' hbr σ hσ
+    obtain ⟨first'', asg'', rfl, hfirst, hasg⟩ := ddParen_BRg_inv hbr nb
+    obtain ⟨l1'', r1'', rfl, hl1, hr1⟩ := hfirst.bin_inv
+    obtain ⟨Δ, eΔ, wΔ⟩ := A asg'' hasg σ hσ
+    obtain ⟨Xs, Δ3, eX, sX, wX⟩ := B asg'' [l1'', r1''] hasg (BRgL.cons hl1 (BRgL.cons hr1 BRgL.nil)) σ [] hσ (Avoid.nil _ _) (AvoidP.nil _)
     simp only [List.nil_append] at eX
     rw [eraseL_two] at eX
-    refine ⟨.bin op (erase (eraseAsg σ asg2) l1).1 (erase (erase (eraseAsg σ asg2) l1).2 r1).1 sp, Δ3 ++ Δ, ?_, ?_, ?_⟩
-    · rw [erase_ddParen _ _ _ _ _ _ inn ta, erase_bin]
+    refine ⟨.bin op (erase (eraseAsg σ asg'') l1'').1 (erase (erase (eraseAsg σ asg'') l1'').2 r1'').1 sp, Δ3 ++ Δ, ?_, ?_, ?_⟩
+    · rw [erase_ddParen _ _ _ _ _ _ inn (ta.BRg hasg), erase_bin]
       have := congrArg Prod.snd eX
       simp only at this
       rw [this, eΔ, List.append_assoc]
@@ -75,7 +130,7 @@ theorem erase_tpl (σ : Env) (es qs : List Node) (sp : Span) :
 
 /-- `to_dd_tpl_expr` -/
 theorem toDdTpl_Er (cfg : Config) (cx : Cx) (lo hi : Nat) (es' es qs : List Node) (sp : Span) (s : St)
-    (hw : HypW cx hi s) (hlo : lo ≤ s.counter) (hf : Forall2 (Er cx lo hi) es' es) :
+    (hw : HypW cx hi s) (hlo : lo ≤ s.counter) (hf : Forall2 (Er cx lo hi) es' es) (hq : noBlkL qs = true) :
     s.counter ≤ (toDdTpl cfg (.tpl es' qs sp) s).2.counter ∧
     ∀ e1, (toDdTpl cfg (.tpl es' qs sp) s).1 = some e1 →
       Er cx lo (toDdTpl cfg (.tpl es' qs sp) s).2.counter e1 (.tpl es qs sp) := by
@@ -83,7 +138,7 @@ theorem toDdTpl_Er (cfg : Config) (cx : Cx) (lo hi : Nat) (es' es qs : List Node
   have hL := replaceTplExprs_Er cx lo hi es' es [] [] s hw hf
   generalize replaceTplExprs es' [] [] s = R at hL ⊢
   obtain ⟨⟨xs, asg, args⟩, s1⟩ := R
-  obtain ⟨new, more, ea, eg, ta, inn, c, A, B⟩ := hL
+  obtain ⟨new, more, ea, eg, ta, inn, nb, c, A, B⟩ := hL
   dsimp only at ea eg c A B
   simp only [List.nil_append] at ea eg
   subst ea eg
@@ -91,12 +146,15 @@ theorem toDdTpl_Er (cfg : Config) (cx : Cx) (lo hi : Nat) (es' es qs : List Node
   intro e1 he
   simp only [Option.some.injEq] at he
   subst he
-  intro σ hσ
-  obtain ⟨Δ, eΔ, wΔ⟩ := A σ hσ
-  obtain ⟨Xs, Δ3, eX, sX, wX⟩ := B σ [] hσ (Avoid.nil _ _) (AvoidP.nil _)
+  intro e'' hbr σ hσ
+  obtain ⟨first'', asg'', rfl, hfirst, hasg⟩ := ddParen_BRg_inv hbr nb
+  obtain ⟨xs'', qs'', rfl, hxs, hqs⟩ := hfirst.tpl_inv
+  rw [BRgL_noBlk hq hqs]
+  obtain ⟨Δ, eΔ, wΔ⟩ := A asg'' hasg σ hσ
+  obtain ⟨Xs, Δ3, eX, sX, wX⟩ := B asg'' xs'' hasg hxs σ [] hσ (Avoid.nil _ _) (AvoidP.nil _)
   simp only [List.nil_append] at eX
   refine ⟨.tpl Xs qs sp, Δ3 ++ Δ, ?_, ?_, ?_⟩
-  · rw [erase_ddParen _ _ _ _ _ _ inn ta, erase_tpl, eX, eΔ, List.append_assoc]
+  · rw [erase_ddParen _ _ _ _ _ _ inn (ta.BRg hasg), erase_tpl, eX, eΔ, List.append_assoc]
   · have hs : stripL Xs = stripL es := sX
     exact ⟨by simp only [strip, hs], Or.inl rfl, noSp_tpl _ _ _⟩
   · try dsimp only
